@@ -157,7 +157,7 @@ func wrap(f *os.File, err error) (*File, error) {
 }
 
 func (f *File) Name() string { return f.f.Name() }
-func (f *File) Fd() uintptr   { return f.f.Fd() }
+func (f *File) Fd() uintptr  { return f.f.Fd() }
 
 func (f *File) Write(b []byte) (int, error) {
 	if len(b) == 0 {
@@ -213,9 +213,9 @@ func (f *File) Truncate(size int64) error {
 
 // ---- read-only functions -----------------------------------------------
 
-func ReadFile(name string) ([]byte, error)      { alive(); return os.ReadFile(name) }
-func Stat(name string) (os.FileInfo, error)     { alive(); return os.Stat(name) }
-func Lstat(name string) (os.FileInfo, error)    { alive(); return os.Lstat(name) }
+func ReadFile(name string) ([]byte, error)       { alive(); return os.ReadFile(name) }
+func Stat(name string) (os.FileInfo, error)      { alive(); return os.Stat(name) }
+func Lstat(name string) (os.FileInfo, error)     { alive(); return os.Lstat(name) }
 func ReadDir(name string) ([]os.DirEntry, error) { alive(); return os.ReadDir(name) }
 
 func Open(name string) (*File, error) {
